@@ -230,9 +230,31 @@ fn check_neighbors(c: &RtCase, ctx: &mut Ctx) -> Result<(), Fail> {
     Ok(())
 }
 
+/// Every other case of the tree family uses zero-centred coded features: even columns become -1 / +1
+/// flags (split thresholds exactly 0.0), odd columns centred integers - boundary values for any
+/// tolerance-based comparison inside model equality.
+fn zero_centred(m: &Mat, like: &Mat) -> Mat {
+    let mu = like.col_means();
+    let sd: Vec<f64> = like.col_vars(0).iter().map(|v| v.sqrt().max(1e-300)).collect();
+    Mat::from_fn(m.r, m.c, |i, j| {
+        let t = (m.at(i, j) - mu[j]) / sd[j];
+        if j % 2 == 0 {
+            if t > 0.0 {
+                1.0
+            } else {
+                -1.0
+            }
+        } else {
+            (2.0 * t).round()
+        }
+    })
+}
+
 fn check_trees(c: &RtCase, ctx: &mut Ctx) -> Result<(), Fail> {
     ctx.nontrivial(true);
-    let (x, x2, q) = (dm(&c.x), dm(&c.x2), dm(&c.q));
+    let coded = ((c.param * 1024.0) as u64) % 2 == 1;
+    ctx.label_if(coded, "trees/zero-centred-coded-features");
+    let (x, x2, q) = if coded { (dm(&zero_centred(&c.x, &c.x)), dm(&zero_centred(&c.x2, &c.x2)), dm(&zero_centred(&c.q, &c.x))) } else { (dm(&c.x), dm(&c.x2), dm(&c.q)) };
     let seed = (c.param * 1e6) as u64;
     match c.which {
         0 => model!(ctx, "tree_classifier", DecisionTreeClassifier::fit(&x, &c.y_cls, DecisionTreeClassifierParameters::default()), DecisionTreeClassifier::fit(&x2, &c.y2_cls, DecisionTreeClassifierParameters::default()), |m: &DecisionTreeClassifier<f64>| pv(m.predict(&q))),
